@@ -111,8 +111,8 @@ Definition big_set_string (s : list Z) : option Z :=
 Definition inRange (v lo hi : Z) : bool := (lo <=? v) && (v <=? hi).
 
 (* interpreter.go: StringValueParsers.  Int8..64 / UInt8..64 / Word8..64 use strconv with the bit size,
-   the 128/256-bit types use bigIntValueParser with inRange, Int and UInt use bigIntValueParser with a
-   converter that always succeeds. *)
+   the 128/256-bit types use bigIntValueParser with inRange, Int uses bigIntValueParser with a converter
+   that always succeeds, UInt one that rejects negative values. *)
 Definition int_from_string (k : ikind) (s : list Z) : option Z :=
   match k with
   | KSigned n =>
@@ -128,7 +128,11 @@ Definition int_from_string (k : ikind) (s : list Z) : option Z :=
            | None => None
            end
   | KInt => big_set_string s
-  | KUInt => big_set_string s      (* NewUnmeteredUIntValueFromBigInt(b), true : no range check *)
+  | KUInt =>                       (* UInt has no upper bound, but must not be negative: b.Sign() < 0 -> nil *)
+      match big_set_string s with
+      | Some v => if v <? 0 then None else Some v
+      | None => None
+      end
   end.
 
 (* ------------------------------------------------------------------ fixed-point kinds *)
